@@ -22,6 +22,7 @@ type runIn struct {
 	ZeroLatencyEvery int        `json:"zero_latency_every"` // every k-th case may use 0-latency writethroughcache pipelines
 	Chains           [][]string `json:"chains"`             // forced chains above the controller to cycle through
 	NoMaskEvery      int        `json:"no_mask_every"`      // every k-th case has no masked writes
+	SlowEvery        int        `json:"slow_every"`         // every k-th case is of the family "slow lower level"
 	Flush            bool       `json:"flush"`              // C17: run the drain/flush programme
 	Filters          int        `json:"filters"`
 	Cases            []Case     `json:"cases"`    // explicit cases (replays), run before the generated ones
@@ -85,9 +86,15 @@ func GenCase(seed int64, idx int, in *runIn) Case {
 			o.Chain = []string{}
 		}
 	}
-	c := Case{Stack: RandomStack(rng, o)}
-	c.Work = RandomWorkload(rng, &c.Stack, WorkOpts{Requests: in.Requests,
-		NoMasks: in.NoMaskEvery > 0 && idx%in.NoMaskEvery == 0})
+	var c Case
+	if in.SlowEvery > 0 && idx%in.SlowEvery == in.SlowEvery-1 {
+		// family "slow lower level": victims' write-backs queue up while slots are recycled
+		c = SlowLowerCase(rng, in.Requests)
+	} else {
+		c = Case{Stack: RandomStack(rng, o)}
+		c.Work = RandomWorkload(rng, &c.Stack, WorkOpts{Requests: in.Requests,
+			NoMasks: in.NoMaskEvery > 0 && idx%in.NoMaskEvery == 0})
+	}
 	if in.Flush {
 		n := len(c.Work.Script)
 		// the last fifth of the script runs after everything has been enabled again
